@@ -1,7 +1,7 @@
 (* Shared conversion helpers, textually appended after an extracted module
    (which defines positive/z/n/nat).  Numbers travel as hex strings so that no
    value is ever squeezed through an OCaml int. *)
-let msb_bits_of_hex (s : string) : bool list =
+let msb_bits_of_hex (s : String.t) : bool list =
   let l = ref [] in
   String.iter (fun c ->
     let v = match c with
@@ -12,21 +12,21 @@ let msb_bits_of_hex (s : string) : bool list =
     l := (v land 1 = 1) :: (v land 2 = 2) :: (v land 4 = 4) :: (v land 8 = 8) :: !l) s;
   List.rev !l   (* most significant bit first *)
 
-let pos_of_hex (s : string) : positive =
+let pos_of_hex (s : String.t) : positive =
   let msb = msb_bits_of_hex s in
   let rec strip = function false :: r -> strip r | l -> l in
   match strip msb with
   | [] -> failwith "pos_of_hex: zero"
   | _ :: rest -> List.fold_left (fun p b -> if b then XI p else XO p) XH rest
 
-let z_of_string (s : string) : z =
+let z_of_string (s : String.t) : z =
   if s = "" then failwith "empty number" else
   let neg = s.[0] = '-' in
   let body = if neg then String.sub s 1 (String.length s - 1) else s in
   if String.for_all (fun c -> c = '0') body then Z0
   else if neg then Zneg (pos_of_hex body) else Zpos (pos_of_hex body)
 
-let hex_of_pos (p : positive) : string =
+let hex_of_pos (p : positive) : String.t =
   let rec bits = function XH -> [true] | XO q -> false :: bits q | XI q -> true :: bits q in
   let lsb = bits p in
   let rec groups = function
@@ -49,10 +49,10 @@ let rec int_of_nat = function O -> 0 | S k -> 1 + int_of_nat k
 let zopt_of_string s = if s = "-" then None else Some (z_of_string s)
 let string_of_zopt = function None -> "-" | Some z -> string_of_z z
 
-let words (line : string) : string list =
+let words (line : String.t) : String.t list =
   List.filter (fun w -> w <> "") (String.split_on_char ' ' (String.trim line))
 
-let iter_lines (f : string -> string) : unit =
+let iter_lines (f : String.t -> String.t) : unit =
   (try
     while true do
       let line = input_line stdin in
